@@ -95,6 +95,11 @@ def gen_cases(ctx):
                 yield {"p": p, "kind": "one-zero", "rank": int(rng.integers(1, 64 - p + 2))}
                 yield {"p": p, "kind": "all-zero-but-one", "rank": int(rng.integers(1, 64 - p + 2)), "pos": int(rng.integers(0, m))}
                 yield {"p": p, "kind": "uniform", "rank": int(rng.integers(1, 6))}
+                # estimates far beyond 2^32 (uniform high ranks), and the precision passed as a narrow NumPy integer
+                yield {"p": p, "kind": "uniform", "rank": pick(rng, [10, 14, 16, 20, 30, 40, 64 - p])}
+                for pt in ("uint8", "int8", "int16", "uint16", "int32", "uint64"):
+                    if p <= 127 or pt != "int8":
+                        yield {"p": p, "kind": "ideal", "n": int((1 << p) * pick(rng, [0.3, 2.0, 8.0, 30.0])), "seed": int(rng.integers(0, 2**31)), "p_type": pt}
                 for side in ("below", "above"):
                     yield {"p": p, "kind": "lc-threshold", "side": side}
                     for off in (1, 2, 3):
@@ -119,7 +124,8 @@ def build(case, mon):
     p = case["p"]
     m = 1 << p
     k = case["kind"]
-    hll = s.HyperLogLog(p, case.get("hll_seed", 0))
+    pt = case.get("p_type")
+    hll = s.HyperLogLog(getattr(np, pt)(p) if pt else p, case.get("hll_seed", 0))
     if k == "zeros":
         reg = np.zeros(m, np.uint8)
     elif k == "all-max":
@@ -215,6 +221,45 @@ def thread_queries(ctx, mon):
     mon.end_case()
 
 
+def reused_object(ctx, mon):
+    """ONE sketch object is shown a sequence of register states (assigned through the documented attribute), among them pairs
+    with equal byte sums but different contents and states that go *down*: every answer must be the estimate of the state it
+    is asked about."""
+    s = sk()
+    rng = ctx.rng("reused")
+    for p in (7, 8, 10, 12, 14):
+        h = s.HyperLogLog(p, 1)
+        thr, raw_t, bias_t = float(h.threshold), np.array(h.raw_estimate), np.array(h.bias_data)
+        m = 1 << p
+        states = []
+        base = ideal_registers(rng, p, int(m * pick(rng, [0.5, 2.0, 6.0])))
+        states.append(base)
+        b2 = base.copy()
+        i, j = int(np.argmax(base)), int(np.argmin(base))
+        b2[i] -= 1
+        b2[j] += 1  # same byte sum, different multiset
+        states.append(b2)
+        b3 = base.copy()
+        nz = np.flatnonzero(base >= 2)
+        if len(nz) >= 2:
+            b3[nz[0]] -= 2
+            b3[nz[1]] += 2
+            states.append(b3)
+        states.append(ideal_registers(rng, p, int(m * 0.1)))  # a smaller state after a larger one
+        states.append(base)
+        case = {"reused_object": p}
+        mon.begin_case(case)
+        for k, reg in enumerate(states):
+            h.registers[:] = reg
+            got = float(h.query())
+            want = hll_ref.estimate(reg, p, thr, raw_t, bias_t)
+            mon.check(abs(got - want) <= REL * max(abs(want), 1e-300), "query==HLL++(registers)-on-a-reused-object", p=p, step=k, got=got, want=want,
+                      byte_sum=int(reg.sum()))
+        mon.count("reused_object_sequences")
+        mon.nontrivial(True)
+        mon.end_case()
+
+
 def table_sanity(ctx, mon):
     s = sk()
     mon.begin_case({"tables": "structure"})
@@ -235,11 +280,14 @@ def table_sanity(ctx, mon):
 def run(ctx, mon):
     table_sanity(ctx, mon)
     thread_queries(ctx, mon)
+    reused_object(ctx, mon)
     run_cases(ctx, mon, gen_cases(ctx), run_case)
 
 
 def replay(case, ctx, mon):
-    if "threads" in case:
+    if "reused_object" in case:
+        reused_object(ctx, mon)
+    elif "threads" in case:
         thread_queries(ctx, mon)
     elif "tables" in case:
         table_sanity(ctx, mon)
